@@ -8,6 +8,7 @@ from __main__ import Fact, const_num, lean_str, lean_bool, lean_list
 PROPERTIES = ["C02", "C03", "C04", "C05"]
 MOD = "SimpleJSONRPCServer"
 FUNCS = ["validate_request", "SimpleJSONRPCDispatcher._unmarshaled_dispatch", "SimpleJSONRPCDispatcher._marshaled_dispatch",
+         "SimpleJSONRPCDispatcher._safe_jdumps",
          "SimpleJSONRPCDispatcher._marshaled_single_dispatch", "SimpleJSONRPCDispatcher._method_exception_fault",
          "SimpleJSONRPCDispatcher._dispatch"]
 
@@ -17,25 +18,85 @@ def _is_fault_call(n):
         (isinstance(n.func, ast.Name) and n.func.id == "Fault") or (isinstance(n.func, ast.Attribute) and n.func.attr == "Fault"))
 
 
+def _literal_code(c):
+    code = const_num(c.args[0]) if c.args else None
+    if code is None:
+        for kw in c.keywords:
+            if kw.arg == "code":
+                code = const_num(kw.value)
+    return code if isinstance(code, int) else None
+
+
+def _callee_name(call):
+    f = call.func
+    if isinstance(f, ast.Name):
+        return f.id
+    if isinstance(f, ast.Attribute):
+        return f.attr
+    return None
+
+
+def _fault_helpers(src):
+    """Functions outside FUNCS (module level, methods of the dispatcher, local defs of the FUNCS) that build a Fault with
+    one literal code: name -> code.  A call of such a helper counts as a Fault site of the caller."""
+    roots = set(q.split(".")[-1] for q in FUNCS)
+    helpers = {}
+    tree = src.module(MOD)
+    if tree is None:
+        return helpers
+    cands = []
+    for n in tree.body:
+        if isinstance(n, ast.FunctionDef):
+            cands.append(n)
+        elif isinstance(n, ast.ClassDef) and n.name == "SimpleJSONRPCDispatcher":
+            cands.extend(m for m in n.body if isinstance(m, ast.FunctionDef))
+    for q in FUNCS:
+        fn = src.func(MOD, q)
+        if fn is not None:
+            cands.extend(x for x in ast.walk(fn) if isinstance(x, ast.FunctionDef) and x is not fn)
+    for fn in cands:
+        name = getattr(fn, "name", None)
+        if name is None or name in roots:
+            continue
+        codes = set()
+        ok = True
+        for x in ast.walk(fn):
+            if _is_fault_call(x):
+                c = _literal_code(x)
+                if c is None:
+                    ok = False
+                codes.add(c)
+        if ok and len(codes) == 1:
+            helpers[name] = codes.pop()
+    return helpers
+
+
 def _fault_sites(src):
-    """(function name, literal code) of every Fault(<literal>, ...) call of the dispatcher, in source order."""
+    """The multiset of (function name, literal code) of the Fault(<literal>, ...) sites of the dispatcher, in canonical
+    (sorted) order.  A site is a direct `Fault(<literal>, ..)` call in the function's own body (not in a local def) or a
+    call of a helper that builds a Fault with one literal code (local def, module-level function or method outside FUNCS):
+    refactoring two sites into one helper called twice leaves the table unchanged."""
+    helpers = _fault_helpers(src)
     out = []
     for q in FUNCS:
         fn = src.func(MOD, q)
         if fn is None:
             return None
-        calls = [n for n in ast.walk(fn) if _is_fault_call(n)]
-        calls.sort(key=lambda n: (n.lineno, n.col_offset))
-        for c in calls:
-            code = const_num(c.args[0]) if c.args else None
-            if code is None:
-                for kw in c.keywords:
-                    if kw.arg == "code":
-                        code = const_num(kw.value)
-            if not isinstance(code, int):
-                return None
-            out.append((q.split(".")[-1], code))
-    return out
+        inner = set()
+        for x in ast.walk(fn):
+            if isinstance(x, (ast.FunctionDef, ast.Lambda)) and x is not fn:
+                inner.update(id(y) for y in ast.walk(x) if y is not x)
+        for c in ast.walk(fn):
+            if not isinstance(c, ast.Call) or id(c) in inner:
+                continue
+            if _is_fault_call(c):
+                code = _literal_code(c)
+                if code is None:
+                    return None
+                out.append((q.split(".")[-1], code))
+            elif _callee_name(c) in helpers:
+                out.append((q.split(".")[-1], helpers[_callee_name(c)]))
+    return sorted(out)
 
 
 def _catches_exception(handler):
@@ -112,32 +173,63 @@ def _single_dispatch_handlers(fn):
     return out or None
 
 
+def _is_request_id(node):
+    """`request["id"]`, `request.get("id")` or `request.get("id", None)`."""
+    if isinstance(node, ast.Subscript) and isinstance(node.value, ast.Name) and node.value.id == "request" \
+            and isinstance(node.slice, ast.Constant) and node.slice.value == "id":
+        return "subscript"
+    if isinstance(node, ast.Call) and isinstance(node.func, ast.Attribute) and node.func.attr == "get" \
+            and isinstance(node.func.value, ast.Name) and node.func.value.id == "request" and node.args \
+            and isinstance(node.args[0], ast.Constant) and node.args[0].value == "id" and not node.keywords \
+            and (len(node.args) == 1 or (len(node.args) == 2 and isinstance(node.args[1], ast.Constant) and node.args[1].value is None)):
+        return "get"
+    return None
+
+
+def _membership_constants(node):
+    """`<request id> in (<constants>)` -> (access kind, constants) else None."""
+    if not (isinstance(node, ast.Compare) and len(node.ops) == 1 and isinstance(node.ops[0], ast.In)
+            and isinstance(node.comparators[0], (ast.Tuple, ast.List))):
+        return None
+    kind = _is_request_id(node.left)
+    if kind is None:
+        return None
+    vals = []
+    for e in node.comparators[0].elts:
+        if isinstance(e, ast.Constant) and (e.value is None or isinstance(e.value, str)):
+            vals.append(e.value)
+        else:
+            return None
+    return kind, vals
+
+
 def _notif_test(fn):
-    """`is_notification = "id" not in request or request["id"] in (<constants>)`: the constants, else None."""
+    """The ids that make a validated request a notification, from either spelling of the test
+        is_notification = "id" not in request or request["id"] in (<constants>)
+        is_notification = request.get("id") in (<constants containing None>)
+    (equivalent on a dictionary: a missing id reads as None).  The constants in canonical order, else None."""
     for n in ast.walk(fn):
         if isinstance(n, ast.Assign) and len(n.targets) == 1 and isinstance(n.targets[0], ast.Name) \
                 and n.targets[0].id == "is_notification":
             v = n.value
-            if not (isinstance(v, ast.BoolOp) and isinstance(v.op, ast.Or) and len(v.values) == 2):
+            vals = None
+            if isinstance(v, ast.BoolOp) and isinstance(v.op, ast.Or) and len(v.values) == 2:
+                a, b = v.values
+                ok_a = (isinstance(a, ast.Compare) and len(a.ops) == 1 and isinstance(a.ops[0], ast.NotIn)
+                        and isinstance(a.left, ast.Constant) and a.left.value == "id"
+                        and isinstance(a.comparators[0], ast.Name) and a.comparators[0].id == "request")
+                m = _membership_constants(b)
+                if ok_a and m is not None:
+                    vals = m[1]
+            else:
+                m = _membership_constants(v)
+                # without the `"id" not in request` disjunct a missing id must read as a member: .get + None in the tuple
+                if m is not None and m[0] == "get" and None in m[1]:
+                    vals = m[1]
+            if vals is None:
                 return None
-            a, b = v.values
-            ok_a = (isinstance(a, ast.Compare) and len(a.ops) == 1 and isinstance(a.ops[0], ast.NotIn)
-                    and isinstance(a.left, ast.Constant) and a.left.value == "id"
-                    and isinstance(a.comparators[0], ast.Name) and a.comparators[0].id == "request")
-            ok_b = (isinstance(b, ast.Compare) and len(b.ops) == 1 and isinstance(b.ops[0], ast.In)
-                    and isinstance(b.left, ast.Subscript) and isinstance(b.left.value, ast.Name) and b.left.value.id == "request"
-                    and isinstance(b.left.slice, ast.Constant) and b.left.slice.value == "id"
-                    and isinstance(b.comparators[0], (ast.Tuple, ast.List)))
-            if not (ok_a and ok_b):
-                return None
-            vals = []
-            for e in b.comparators[0].elts:
-                if isinstance(e, ast.Constant) and (e.value is None or isinstance(e.value, str)):
-                    vals.append(e.value)
-                else:
-                    return None
-            # membership does not depend on the order of the tuple: canonical order (None first, then strings)
-            return sorted(vals, key=lambda v: (v is not None, v or ""))
+            # membership does not depend on the order of the tuple: canonical order (None first, then strings), no repeats
+            return sorted(set(vals), key=lambda v: (v is not None, v or ""))
     return None
 
 
@@ -164,9 +256,26 @@ def _handler_names(t):
     return out
 
 
+def _is_handler_traceback(node, handler):
+    """`sys.exc_info()[2]` (or `exc_info()[2]`), or `<handler name>.__traceback__`: the traceback of the exception
+    being handled, with no intervening rebinding."""
+    if isinstance(node, ast.Subscript) and isinstance(node.slice, ast.Constant) and node.slice.value == 2 \
+            and isinstance(node.value, ast.Call) and not node.value.args and not node.value.keywords:
+        f = node.value.func
+        if isinstance(f, ast.Attribute) and f.attr == "exc_info" and isinstance(f.value, ast.Name) and f.value.id == "sys":
+            return True
+        if isinstance(f, ast.Name) and f.id == "exc_info":
+            return True
+    if isinstance(node, ast.Attribute) and node.attr == "__traceback__" and isinstance(node.value, ast.Name) \
+            and handler.name is not None and node.value.id == handler.name:
+        return True
+    return False
+
+
 def _tb_next_test(t):
-    """In the `except TypeError` handler: `if <...>.tb_next is not None: return self._method_exception_fault(..)`
-    placed before the -32602 Fault."""
+    """In the `except TypeError` handler, before the -32602 Fault:
+    `if sys.exc_info()[2].tb_next is not None: return self._method_exception_fault(..)` — the tested object must be the
+    traceback of the handled exception itself (`sys.exc_info()[2]` / `ex.__traceback__`), not a variable."""
     for h in t.handlers:
         if isinstance(h.type, ast.Name) and h.type.id == "TypeError":
             for s in h.body:
@@ -174,6 +283,7 @@ def _tb_next_test(t):
                     tst = s.test
                     if (isinstance(tst, ast.Compare) and len(tst.ops) == 1 and isinstance(tst.ops[0], ast.IsNot)
                             and isinstance(tst.left, ast.Attribute) and tst.left.attr == "tb_next"
+                            and _is_handler_traceback(tst.left.value, h)
                             and isinstance(tst.comparators[0], ast.Constant) and tst.comparators[0].value is None):
                         returns_exc = any(isinstance(x, ast.Return) and x.value is not None and _call_named(x.value, "_method_exception_fault")
                                           for x in s.body)
@@ -182,6 +292,74 @@ def _tb_next_test(t):
                     return False
             return False
     return None
+
+
+# what an exception handler of the dispatcher may call: build the Fault, format its message, log it — never the callable
+REPORTING_CALLS = {"Fault", "format", "warning", "error", "exception", "info", "debug", "log", "_method_exception_fault",
+                   "exc_info", "format_exception", "format_exception_only", "get", "type", "str", "repr", "dump", "isinstance",
+                   "splitlines", "strip", "join", "len"}
+
+
+def _handlers_only_report(dispatch_fn, single_fn):
+    """Do the handlers around the call of the method (`_dispatch`: the try whose body calls func(..);
+    `_marshaled_single_dispatch`: every `except Exception` handler) call nothing but Fault / format / logger /
+    `_method_exception_fault` — in particular never `func`, `dispatch_method` or `self._dispatch` again?"""
+    handlers = []
+    t = _dispatch_call_try(dispatch_fn)
+    if t is None:
+        return None
+    handlers.extend(t.handlers)
+    for n in ast.walk(single_fn):
+        if isinstance(n, ast.Try):
+            handlers.extend(h for h in n.handlers if _catches_exception(h))
+    if not handlers:
+        return None
+    for h in handlers:
+        for s in h.body:
+            for c in ast.walk(s):
+                if isinstance(c, ast.Call) and _callee_name(c) not in REPORTING_CALLS:
+                    return False
+                if isinstance(c, (ast.While, ast.For)):
+                    return False
+    return True
+
+
+def _method_unmodified(fn):
+    """_dispatch: the parameters `method` and `params` are never rebound, the registry is read as `self.funcs[method]`,
+    and the instance is consulted with the same `method` (2nd argument of resolve_dotted_attribute)."""
+    for n in ast.walk(fn):
+        targets = []
+        if isinstance(n, ast.Assign):
+            targets = n.targets
+        elif isinstance(n, (ast.AugAssign, ast.AnnAssign)):
+            targets = [n.target]
+        elif isinstance(n, (ast.For, ast.comprehension)):
+            targets = [n.target]
+        elif isinstance(n, ast.NamedExpr):
+            targets = [n.target]
+        elif isinstance(n, ast.withitem) and n.optional_vars is not None:
+            targets = [n.optional_vars]
+        for t in targets:
+            for x in ast.walk(t):
+                if isinstance(x, ast.Name) and x.id in ("method", "params"):
+                    return False
+    sub = [n for n in ast.walk(fn) if isinstance(n, ast.Subscript) and isinstance(n.value, ast.Attribute) and n.value.attr == "funcs"]
+    if not sub or not all(isinstance(n.slice, ast.Name) and n.slice.id == "method" for n in sub):
+        return False
+    for n in ast.walk(fn):
+        if isinstance(n, ast.Call) and isinstance(n.func, ast.Name) and n.func.id == "resolve_dotted_attribute":
+            if not (len(n.args) >= 2 and isinstance(n.args[1], ast.Name) and n.args[1].id == "method"):
+                return False
+    return True
+
+
+def _batch_iterates_whole_request(fn):
+    """_unmarshaled_dispatch: the batch loop is `for <entry> in request` over the parameter itself (no slice, no filter)."""
+    loops = [n for n in ast.walk(fn) if isinstance(n, ast.For)]
+    if not loops:
+        return None
+    return any(isinstance(n.iter, ast.Name) and n.iter.id == "request" for n in loops) and not any(
+        isinstance(n.iter, ast.Subscript) for n in loops)
 
 
 def _dotted_allowed(fn):
@@ -202,7 +380,7 @@ def facts(src):
     out.append(Fact(
         "faultSites", "List (String × Int)",
         None if sites is None else lean_list(["(%s, (%d : Int))" % (lean_str(f), c) for f, c in sites]),
-        ["C02", "C05"], "every Fault(<literal code>, ..) call of the dispatcher with its enclosing function, in source order",
+        ["C02", "C05"], "multiset of (enclosing function, literal code) of the Fault sites of the dispatcher (direct calls and calls of Fault-building helpers), sorted",
         json_value=sites))
     md = src.func(MOD, "SimpleJSONRPCDispatcher._marshaled_dispatch")
     lg = _guarded(md, "loads") if md is not None else None
@@ -211,6 +389,15 @@ def facts(src):
     jg = _guarded(md, "jdumps") if md is not None else None
     out.append(Fact("jdumpsGuarded", "Bool", None if jg is None else lean_bool(jg), ["C02"],
                     "_marshaled_dispatch: the final jdumps of the reply is inside try/except Exception (no re-raise)", json_value=jg))
+    sj = src.func(MOD, "SimpleJSONRPCDispatcher._safe_jdumps")
+    sg = _guarded(sj, "jdumps") if sj is not None else None
+    out.append(Fact("safeJdumpsGuarded", "Bool", None if sg is None else lean_bool(sg), ["C02", "C03"],
+                    "_safe_jdumps: both jdumps calls (the response, the id probe) are inside try/except Exception (no re-raise)",
+                    json_value=sg))
+    ud = src.func(MOD, "SimpleJSONRPCDispatcher._unmarshaled_dispatch")
+    bw = _batch_iterates_whole_request(ud) if ud is not None else None
+    out.append(Fact("batchLoopOverRequest", "Bool", None if bw is None else lean_bool(bw), ["C03"],
+                    "_unmarshaled_dispatch: the batch loop iterates over `request` itself (no slice)", json_value=bw))
     sd = src.func(MOD, "SimpleJSONRPCDispatcher._marshaled_single_dispatch")
     hs = _single_dispatch_handlers(sd) if sd is not None else None
     out.append(Fact("exceptFaultsCarryId", "List Bool", None if hs is None else lean_list([lean_bool(a) for a, _ in hs]), ["C03"],
@@ -222,7 +409,8 @@ def facts(src):
     nt = _notif_test(sd) if sd is not None else None
     out.append(Fact("notifIds", "List (Option String)",
                     None if nt is None else lean_list(["none" if v is None else "some %s" % lean_str(v) for v in nt]), ["C04", "C03"],
-                    "is_notification = \"id\" not in request or request[\"id\"] in (<these constants, in canonical order>)", json_value=nt))
+                    "is_notification = \"id\" not in request or request[\"id\"] in (<these constants, in canonical order>) "
+                    "(or the equivalent request.get(\"id\") in (..))", json_value=nt))
     dp = src.func(MOD, "SimpleJSONRPCDispatcher._dispatch")
     t = _dispatch_call_try(dp) if dp is not None else None
     hn = _handler_names(t) if t is not None else None
@@ -230,9 +418,17 @@ def facts(src):
                     "_dispatch: exception classes of the handlers around func(*params), in order", json_value=hn))
     tb = _tb_next_test(t) if t is not None else None
     out.append(Fact("tbNextTest", "Bool", None if tb is None else lean_bool(tb), ["C05"],
-                    "_dispatch: the TypeError handler first tests `tb_next is not None` and then reports a method exception",
+                    "_dispatch: the TypeError handler first tests `sys.exc_info()[2].tb_next is not None` (the handled traceback itself) and then reports a method exception",
                     json_value=tb))
     da = _dotted_allowed(dp) if dp is not None else None
     out.append(Fact("dottedAllowed", "Bool", None if da is None else lean_bool(da), ["C05"],
                     "_dispatch: resolve_dotted_attribute(self.instance, method, True)", json_value=da))
+    ho = _handlers_only_report(dp, sd) if (dp is not None and sd is not None) else None
+    out.append(Fact("handlersOnlyReport", "Bool", None if ho is None else lean_bool(ho), ["C02", "C05"],
+                    "_dispatch / _marshaled_single_dispatch: the handlers around the method call only build, format and log a Fault "
+                    "(no call of func / dispatch_method / _dispatch, no loop)", json_value=ho))
+    mu = _method_unmodified(dp) if dp is not None else None
+    out.append(Fact("methodUnmodified", "Bool", None if mu is None else lean_bool(mu), ["C05"],
+                    "_dispatch: `method` and `params` are never rebound; lookups use self.funcs[method] and "
+                    "resolve_dotted_attribute(self.instance, method, ..)", json_value=mu))
     return out
